@@ -180,9 +180,10 @@ Fixpoint parent_loop (retries : N) (ws : list wout) : loop_res :=
    4. scenario language
    ------------------------------------------------------------------------------------------------------------------ *)
 (* scripted outcomes are symbolic: the spec reads the event, the model reads the encoded word *)
-Inductive sout := SEintr | SErr | SEv (e : ev).
+Inductive sout := SEintr | SErr (errno : N) | SEv (e : ev).   (* errno of a failing wait: any value but EINTR *)
+Definition c_EINTR : N := 4.
 Definition conc (o : sout) : wout :=
-  match o with SEintr => WEintr | SErr => WErr | SEv e => WStat (encode e) end.
+  match o with SEintr => WEintr | SErr _ => WErr | SEv e => WStat (encode e) end.
 
 (* what a real child does, in the order the phases run *)
 Inductive act :=
@@ -320,7 +321,7 @@ Definition run (s : scenario) : obs :=
 (* ------------------------------------------------------------------------------------------------------------------
    6. validity and the property as an oracle on observations
    ------------------------------------------------------------------------------------------------------------------ *)
-Definition sout_ok (o : sout) : bool := match o with SEv e => ev_ok e | _ => true end.
+Definition sout_ok (o : sout) : bool := match o with SEv e => ev_ok e | SErr n => negb (n =? c_EINTR) | SEintr => true end.
 Definition act_ok (a : act) : bool :=
   match a with ARaise s => (1 <=? s) && (s <=? 31) | AExit k => k <? 256 | AFail => true end.
 Definition prog_ok (p : prog) : bool :=
@@ -341,7 +342,7 @@ Definition tolerated : nat := N.to_nat (if eintr_bound_strict then eintr_bound +
 Fixpoint expect (budget : nat) (l : list sout) : nat * nat * bool :=
   match l with
   | [] => (0, 0, false)%nat
-  | SErr :: _ => (1, 1, false)%nat
+  | SErr _ :: _ => (1, 1, false)%nat
   | SEintr :: tl =>
       match budget with
       | O => (1, 1, false)%nat
@@ -364,7 +365,7 @@ Fixpoint smerge (inject : list inj) (evs : list sout) : list sout :=
   match inject with
   | [] => evs
   | IEintr :: tl => SEintr :: smerge tl evs
-  | IErr :: tl => SErr :: smerge tl evs
+  | IErr :: tl => SErr 5 :: smerge tl evs
   | IReal :: tl => match evs with [] => [] | e :: r => e :: smerge tl r end
   end.
 Definition real_stream (p : prog) (inject : list inj) : list sout :=
